@@ -865,7 +865,7 @@ SHARED = {
     "C02": [("c13", "r13_1_year_cache_keys"), ("c01", "r01_5_per_year_consistency"), ("c01", "r01_13_days_since_epoch_uses_hooks"), ("c01", "r01_14_gregorian_fast_tables")],
     "C03": [("c11", "r11_4_sign_discipline"), ("c15", "r15_12_timedelta_fields"), ("c15", "r15_13_no_coarser_type_on_the_way")],
     "C04": [("c02", "r02_5_leap_decisions")],
-    "C06": [("c04", "r04_8_queries_are_used"), ("c02", "r02_5_leap_decisions"), ("c13", "r13_2_zone_interval_cache"), ("c01", "r01_5_per_year_consistency"), ("c17", "r17_11_offset_bucket_range")],
+    "C06": [("c04", "r04_8_queries_are_used"), ("c02", "r02_5_leap_decisions"), ("c13", "r13_2_zone_interval_cache"), ("c01", "r01_5_per_year_consistency"), ("c17", "r17_11_offset_bucket_range"), ("c04", "r04_14_weekday_adjustment")],
     "C18": [("c12", "r12_2_3_eq_hash_fields"), ("c09", "r09_12_months_between_is_checked_by_addition"), ("c13", "r13_12_packed_cache_words_are_unpacked"), ("c01", "r01_5_per_year_consistency"), ("c01", "r01_13_days_since_epoch_uses_hooks"), ("c01", "r01_3b_badi_table_readers"), ("c01", "r01_9_badi_year_lengths"), ("c10", "r10_15_single_boundary_fast_path")],
     "C17": [("c13", "r13_13_bucket_providers_build_fresh_buckets"), ("c07", "r07_2_table_agreement")],
     "C12": [("c09", "r09_12_months_between_is_checked_by_addition"), ("c13", "r13_4_publication")],
@@ -879,7 +879,7 @@ SHARED = {
     "C10": [("c03", "r03_6_rounding_helpers_exact")],
     "C08": [("c09", "r09_17_computed_values_overflow")],
     "C13": [("c01", "r01_2_registry"), ("c19", "r19_2_lockset")],
-    "C19": [("c13", "r13_2_zone_interval_cache"), ("c03", "r03_9_untrusted_guard"), ("c06", "r06_11_fixed_zone_table")],
+    "C19": [("c13", "r13_2_zone_interval_cache"), ("c03", "r03_9_untrusted_guard"), ("c06", "r06_11_fixed_zone_table"), ("c04", "r04_14_weekday_adjustment")],
 }
 
 
